@@ -108,11 +108,17 @@ fn record_layout(rec: &mut Rec, font: &MonoFont, lay: &Layout) -> bool {
     }
     let lf = if tl == lay.text { None } else { Some(draw(font, &lay.sty, ts, &tl, pos)) };
     let lfr = lf.as_ref().unwrap_or(&whole);
-    // the lines of T' as separate single-line texts
+    // the lines of T as separate single-line texts
     let d = line_distance(lay.lh, font.character_size.height);
     let style = lay.sty.build(font);
     let mut lines = vec![];
-    for (j, line) in tl.split(|&c| c == 10).enumerate() {
+    // the lines of T: split at LF; a CR in front of that LF belongs to the line ending (the last line has none)
+    let raw_lines: Vec<&[u32]> = lay.text.split(|&c| c == 10).collect();
+    let nl = raw_lines.len();
+    let true_lines: Vec<&[u32]> =
+        raw_lines.iter().enumerate().map(|(j, l)| if j + 1 < nl && l.last() == Some(&13) { &l[..l.len() - 1] } else { *l }).collect();
+    for (j, line) in true_lines.iter().enumerate() {
+        let line: &[u32] = line;
         let y = lay.pos.1 + j as i32 * d;
         let p = Point::new(lay.pos.0, y);
         let dr = draw(font, &lay.sty, ts, line, p);
@@ -130,7 +136,7 @@ fn record_layout(rec: &mut Rec, font: &MonoFont, lay: &Layout) -> bool {
     };
     // chained drawing: single-line, left-aligned texts only
     let mut chains = vec![];
-    if lay.align == 0 && !lay.text.iter().any(|&c| c == 10 || c == 13) {
+    if lay.align == 0 && !lay.text.iter().any(|&c| c == 10) {
         let ks: Vec<usize> = match &lay.chains {
             Some(v) => v.iter().copied().filter(|&k| k <= lay.text.len()).collect(),
             None => (0..=lay.text.len()).collect(),
